@@ -27,7 +27,9 @@ fn text(rng: &mut Rng,len: usize) -> String {
     // printable ASCII lines, each ending in a newline
     let mut s = String::new();
     while s.len() < len.max(1) {
-        let l = rng.below(60);
+        // indentation runs (Pascal stores them as a count byte), also very deep ones and lines made of blanks only
+        if rng.below(3)==0 { let k = [1usize,2,3,15,16,17,94,95,96,127,128,222,223,224,225,300,500][rng.below(17)]; for _ in 0..k { s.push(' '); } }
+        let l = if rng.below(12)==0 { 200 + rng.below(1000) } else { rng.below(60) };
         for _ in 0..l { s.push((0x20 + rng.below(0x5f) as u8) as char); }
         s.push('\n');
     }
